@@ -6,6 +6,22 @@ Model: ZenonVerif/Model/Contracts.lean (one state machine per contract, `vmStep`
 namespace ZV.C10
 open ZV.Contracts
 
+/-! ## the constants found in the tree (regenerated on every run) -/
+
+/-- the production constants keep the Go code inside the domain the model covers: no division / modulo by zero
+    (fusion unit, stake time unit, pillar and sentinel revoke cycles), a non-empty range of stake durations, every
+    admissible stake period has a liquidity weight (`LiquidityStakeWeights[period]` never indexes out of range), and
+    exactly the two modelled hash types exist with 32-byte digests. A changed constant that leaves this true passes;
+    one that breaks it fails the build. -/
+theorem production_constants_in_domain :
+    0 < ZV.Gen.CostPerFusionUnitC ∧ 0 < ZV.Gen.StakeTimeUnitSec ∧ ZV.Gen.StakeTimeMinSec ≤ ZV.Gen.StakeTimeMaxSec ∧
+    ZV.Gen.StakeTimeMaxSec / ZV.Gen.StakeTimeUnitSec < ZV.Gen.LiquidityStakeWeights.length ∧
+    0 < ZV.Gen.PillarEpochLockTime + ZV.Gen.PillarEpochRevokeTime ∧
+    0 < ZV.Gen.SentinelLockTimeWindow + ZV.Gen.SentinelRevokeTimeWindow ∧
+    ZV.Gen.NumHashTypes = 2 ∧ digestSize ZV.Gen.HashTypeSHA3 = some 32 ∧ digestSize ZV.Gen.HashTypeSHA256 = some 32 ∧
+    ZV.Gen.FuseMinAmount % ZV.Gen.CostPerFusionUnitC = 0 := by
+  decide
+
 /-! ## plasma -/
 
 /-- T1 (plasma, one receive): whatever the call, its arguments and its outcome (applied or refunded), the sum of the
@@ -165,6 +181,34 @@ theorem cancelStake_never_twice (id : Hash) (s s' s'' : Stake) (c c2 : Ctx) (ps 
   rw [hsame, hrec] at he2
   cases he2
   rw [hp2, hsame]
+
+/-- the deletion of cancelled stake entries by a reward update touches only entries that hold nothing: what the
+    contract owes does not grow, and a later Cancel of the deleted entry fails -/
+theorem stake_collect_keeps_backing (s s' : Stake) (k : Addr × Hash) (bal : Bal) (h : s.collect k = some s')
+    (hb : Backed stakeOwed s bal) :
+    Backed stakeOwed s' bal ∧ ∀ c : Ctx, c.sender = k.1 → cancelStake k.2 s' c = none := by
+  unfold Stake.collect at h
+  split at h
+  · cases h
+  · rename_i e he
+    split at h
+    · simp only [Option.some.injEq] at h
+      subst h
+      constructor
+      · intro tok ht
+        have := hb tok ht
+        have hle := total_erase_le (fun e : StakeE => e.amount) k s.entries
+        simp only [stakeOwed, Stake.owed] at this ⊢
+        by_cases hz : tok = znnTok
+        · subst hz; simp only [if_true] at this ⊢; omega
+        · simp [hz]
+      · intro c hc
+        unfold cancelStake
+        split
+        · rfl
+        · have : (c.sender, k.2) = k := by rw [hc]
+          rw [this, lookup_erase_self]
+    · cases h
 
 /-! ## htlc (the hash functions are a parameter `H`) -/
 
